@@ -26,9 +26,20 @@ go test -vet=off -count=1 -run "$RUN" ./$PKG/ >>"$LOG" 2>&1; R_MUT=$?
 for d in $DEMOS; do rm -f "$WT/$PKG/$(basename $d)"; done
 # the suite uses fixed ports (7777, 25555): run it in a private network namespace, and once more if it fails
 # (two of its job tests are timing dependent on a loaded machine)
-suite() { unshare -n bash -c 'ip link set lo up 2>/dev/null; go test -vet=off -count=1 -timeout 25m ./internal/...'; }
-suite >>"$LOG" 2>&1; R_SUITE=$?
-if [ $R_SUITE -ne 0 ]; then echo "---- suite failed, second attempt" >>"$LOG"; suite >>"$LOG" 2>&1; R_SUITE=$?; fi
+suite() { unshare -n bash -c "ip link set lo up 2>/dev/null; go test -vet=off -count=1 -timeout 25m $1"; }
+suite ./internal/... >"$OUT/suite.log" 2>&1; R_SUITE=$?
+cat "$OUT/suite.log" >>"$LOG"
+# internal/jobs has specs that are timing dependent on a loaded machine (a cron job firing after its store was
+# closed, "DB Closed"; mock server on a fixed port): a failing package is re-run on its own, up to three times
+for attempt in 1 2 3; do
+  [ $R_SUITE -eq 0 ] && break
+  FAILED=$(grep -E '^FAIL[[:space:]]+github.com' "$OUT/suite.log" | awk '{print $2}' | sed 's#github.com/mimiro-io/datahub#.#' | sort -u | tr '\n' ' ')
+  [ -z "$FAILED" ] && break
+  echo "---- re-running failed packages (attempt $attempt): $FAILED" >>"$LOG"
+  suite "$FAILED" >"$OUT/suite.log" 2>&1; R_SUITE=$?
+  cat "$OUT/suite.log" >>"$LOG"
+done
+rm -f "$OUT/suite.log"
 git checkout -q -- . ; git clean -fdq
 cp "$SRC/patch.diff" "$OUT/"; for d in $DEMOS; do cp "$d" "$OUT/$(basename $d).txt"; done; cp "$SRC/demo.txt" "$SRC/notes.md" "$OUT/" 2>/dev/null
 # my check against the change: a private copy of /verif (so that work going on in /verif is not disturbed)
